@@ -523,10 +523,17 @@ fn run(x: &X, mode: Mode) -> Option<Option<X>> {
                 h2.send = Some(H2::open(front.as_ref()?).await?);
             }
             watcher.drain();
+            let markers = std::env::var_os(MARKERS_ENV).is_some();
+            let mut nreq = 0usize;
             for op in &ops {
                 match op {
                     Op::Skip => out.push(X::L(vec![X::N(96)])),
                     Op::Req(method, target, kind) => {
+                        if markers {
+                            // under a system-call trace (`pathsanpipe.sys`): delimits what this request makes the process do
+                            let _ = std::fs::metadata(format!("{MARKER}{nreq}"));
+                            nreq += 1;
+                        }
                         built.shared.log.lock().unwrap().clear();
                         let answer: Option<(u16, Vec<u8>)> = match mode {
                             Mode::InProc => {
@@ -580,6 +587,9 @@ fn run(x: &X, mode: Mode) -> Option<Option<X>> {
                     }
                 }
             }
+            if markers {
+                let _ = std::fs::metadata(format!("{MARKER}{nreq}"));
+            }
             drop(h1);
             drop(h2);
             Some(out)
@@ -593,6 +603,143 @@ fn run(x: &X, mode: Mode) -> Option<Option<X>> {
         Ok(None) => None,
         Err(_) => Some(X::panic()),
     })
+}
+
+// -------------------------------------------------------------------------------------------
+// `pathsanpipe.sys`: the in-process history once more in a child process under `strace -f -e trace=%file`:
+// per request the status and the distinct path strings below the run directory that were handed to ANY
+// file-related system call (open, stat, access, ... — successful or not), in order of first occurrence.
+// output per request (L (N status) (L (B path relative to the run directory) ...)) | (L (N 96)) | (L (N found))
+// -------------------------------------------------------------------------------------------
+const MARKERS_ENV: &str = "KVH_SYS_MARKERS";
+const MARKER: &str = "/kvh-marker/";
+
+/// the quoted strings of one line of `strace -xx` output (every byte is written as \xHH)
+fn quoted_strings(line: &[u8]) -> Vec<Vec<u8>> {
+    let mut out = Vec::new();
+    let mut i = 0;
+    while i < line.len() {
+        if line[i] == b'"' {
+            let mut j = i + 1;
+            let mut cur = Vec::new();
+            while j < line.len() && line[j] != b'"' {
+                if line[j] == b'\\' && j + 3 < line.len() && line[j + 1] == b'x' {
+                    let h = (line[j + 2] as char).to_digit(16);
+                    let l = (line[j + 3] as char).to_digit(16);
+                    if let (Some(h), Some(l)) = (h, l) {
+                        cur.push((h * 16 + l) as u8);
+                        j += 4;
+                        continue;
+                    }
+                }
+                cur.push(line[j]);
+                j += 1;
+            }
+            out.push(cur);
+            i = j + 1;
+        } else {
+            i += 1;
+        }
+    }
+    out
+}
+
+fn sys(x: &X) -> Option<Option<X>> {
+    use std::io::{Read, Write};
+    use std::sync::atomic::{AtomicUsize, Ordering};
+    static N: AtomicUsize = AtomicUsize::new(0);
+    // well-formed? (the child would answer "bad input" as well)
+    x.as_l().filter(|l| l.len() == 2)?;
+    let exe = std::env::current_exe().ok()?;
+    let log = std::env::temp_dir().join(format!("kvh-c01-strace-{}-{}.log", std::process::id(), N.fetch_add(1, Ordering::SeqCst)));
+    let child = std::process::Command::new("strace")
+        .args(["-f", "-qq", "-xx", "-s", "20000", "-e", "trace=%file", "-o"])
+        .arg(&log)
+        .arg(&exe)
+        .env(MARKERS_ENV, "1")
+        .stdin(std::process::Stdio::piped())
+        .stdout(std::process::Stdio::piped())
+        .stderr(std::process::Stdio::null())
+        .spawn();
+    let Ok(mut child) = child else { return Some(None) };
+    let mut line = String::from("s pathsanpipe.run ");
+    x.write(&mut line);
+    line.push('\n');
+    let mut stdin = child.stdin.take()?;
+    let writer = std::thread::spawn(move || {
+        let _ = stdin.write_all(line.as_bytes());
+    });
+    let mut outp = String::new();
+    let _ = child.stdout.take()?.read_to_string(&mut outp);
+    let _ = writer.join();
+    let ok = child.wait().map_or(false, |s| s.success());
+    let trace = std::fs::read(&log).unwrap_or_default();
+    let _ = std::fs::remove_file(&log);
+    if !ok {
+        return Some(None);
+    }
+    let res = outp.lines().find_map(|l| l.strip_prefix("s "))?;
+    let mut pos = 0;
+    let res = crate::xval::parse(res.as_bytes(), &mut pos)?;
+    let rows = match res.as_l() {
+        Some(r) if r.len() == x.as_l()?[1].as_l()?.len() => r,
+        // (L (N 96) (N 1)), a panic, bad input: as the child says
+        _ => return Some(if res == X::L(vec![X::N(96), X::N(1)]) { None } else { Some(res) }),
+    };
+    // windows of the trace between the markers
+    let mut windows: Vec<Vec<Vec<u8>>> = Vec::new();
+    let mut current: Option<Vec<Vec<u8>>> = None;
+    for l in trace.split(|c| *c == b'\n') {
+        for q in quoted_strings(l) {
+            if q.starts_with(MARKER.as_bytes()) {
+                if let Some(w) = current.take() {
+                    windows.push(w);
+                }
+                current = Some(Vec::new());
+            } else if let Some(w) = current.as_mut() {
+                // below the run directory `<verif>/.run/<pid>-<n>/`
+                if let Some(p) = q.windows(6).position(|w| w == b"/.run/") {
+                    if let Some(e) = q[p + 6..].iter().position(|c| *c == b'/') {
+                        let rel = q[p + 6 + e + 1..].to_vec();
+                        if !w.contains(&rel) {
+                            w.push(rel);
+                        }
+                    }
+                }
+            }
+        }
+    }
+    let mut out = Vec::new();
+    let mut k = 0;
+    for (r, op) in rows.iter().zip(x.as_l()?[1].as_l()?) {
+        let is_req = op.as_l().map_or(false, |o| o.len() == 3 && o[0].as_b().is_some());
+        match r.as_l() {
+            Some([status, _, _, _]) => {
+                let w = windows.get(k)?;
+                out.push(X::L(vec![status.clone(), X::L(w.iter().map(X::b).collect())]));
+            }
+            _ => out.push(r.clone()),
+        }
+        // a marker is written for every request that could be sent (in process: every request)
+        if is_req {
+            k += 1;
+        }
+    }
+    if k != windows.len() {
+        return Some(None);
+    }
+    Some(Some(X::L(out)))
+}
+
+fn persistent_sys(x: &X) -> X {
+    for _attempt in 0..3 {
+        match sys(x) {
+            None => return X::bad(),
+            Some(Some(r)) => return r,
+            Some(None) => {}
+        }
+    }
+    X::L(vec![X::N(96), X::N(1)])
 }
 
 fn persistent(x: &X, mode: Mode) -> X {
@@ -611,6 +758,7 @@ pub fn dispatch(comp: &str, x: &X) -> Option<X> {
         "pathsanpipe.run" => crate::guarded(|| persistent(x, Mode::InProc)),
         "pathsanpipe.wire" => crate::guarded(|| persistent(x, Mode::H1)),
         "pathsanpipe.h2" => crate::guarded(|| persistent(x, Mode::H2)),
+        "pathsanpipe.sys" => crate::guarded(|| persistent_sys(x)),
         _ => return None,
     })
 }
